@@ -31,8 +31,11 @@ func (k Keeper) BeginBlocker(ctx sdk.Context, req abci.RequestBeginBlock) {
 		k.AllocateTokens(ctx, sumPreviousPrecommitPower, previousTotalPower, previousProposer, req.LastCommitInfo.GetVotes())
 	}
 
+	// the signing record: only validators that signed the last block get a vote
 	for _, bondedVote := range req.LastCommitInfo.GetVotes() {
-		k.SetValidatorVote(ctx, bondedVote.Validator.Address, ctx.BlockHeight())
+		if bondedVote.SignedLastBlock {
+			k.SetValidatorVote(ctx, bondedVote.Validator.Address, ctx.BlockHeight())
+		}
 	}
 
 	// remove votes older than snap period
